@@ -222,7 +222,7 @@ SCHED_ASSUME = ["the real diode sources are rewritten at check time (harness/too
 
 def _sched_jobs(q_rapid, t_rapid):
     return [
-        {"name": "dfs", "sched": True, "pkg": "./vsched/diodecheck", "tags": "", "run": "^TestDFS$", "shards": T(8, 16), "timeout": T(900, 7200), "replay": "^TestReplay$"},
+        {"name": "dfs", "sched": True, "pkg": "./vsched/diodecheck", "tags": "", "run": "^TestDFS$", "shards": T(16, 16), "timeout": T(900, 7200), "replay": "^TestReplay$"},
         {"name": "random", "sched": True, "pkg": "./vsched/diodecheck", "tags": "", "run": "^TestRapidSchedules$", "rapid": T(q_rapid, t_rapid), "shards": T(4, 16), "timeout": T(900, 7200)},
         {"name": "known", "sched": True, "pkg": "./vsched/diodecheck", "tags": "", "run": "^TestKnown$"},
     ]
